@@ -7,7 +7,7 @@
    A refinement object is viewed as its levels [l0; l1], a container as the list of these (lv_of, views). *)
 From Coq Require Import ZArith List Bool QArith Qcanon Lia.
 From SG Require Import Base.QcUtil Base.PyLib Base.PyNum Base.PyC06 Model.RefTree Model.DimWise Model.DimWiseCache
-  Gen.DimWiseGen Proofs.GenDimWiseEq Proofs.GenDimWiseSubEq Gen.RefContainerGen Proofs.GenRefContEq.
+  Gen.DimWiseGen Proofs.GenDimWiseEq Proofs.GenDimWiseSubEq Gen.RefContainerGen Proofs.GenRefContEq Proofs.GenDimWiseStripe Proofs.DimWiseInv.
 Import ListNotations.
 Local Open Scope Z_scope.
 
@@ -103,3 +103,19 @@ Example C06_gen_get_next_nonvacuous :
   RefinementContainer_get_next_object_for_refinement 4 1 [Q2Qc 1; Q2Qc (1 # 2); Q2Qc 1; Q2Qc 1; Q2Qc 1] (Q2Qc (9 # 10)) = Some (true, (2, 3)) /\
   RefinementContainer_get_next_object_for_refinement 0 3 [Q2Qc 1; Q2Qc 0; Q2Qc 1; Q2Qc 0] (Q2Qc (9 # 10)) = Some (false, (-1, 3)).
 Proof. vm_compute. split; reflexivity. Qed.
+
+(* (phase 5) the stripe of (dimension, level) - the 1D point set of get_point_coord_for_each_dim that all C03 theorems speak about
+   (Model/DimWise.v stripe_dim / dw_stripe_coords) - is computed with the GENERATED get_subtraction_value: in every state
+   satisfying the C06 invariant (hence every reachable state), for the coarsening versions 2, 6, 7, 8, every dimension and every
+   level vector whose component d is the level.  Hand-modelled remains of get_point_coord_for_each_dim: the loop over the
+   container and the threshold test levels[1] <= max(levelvec[d] - subtraction_value, 1) *)
+Theorem C06_gen_stripe_uses_generated_subtraction_value : forall a b o st (d : nat) l levelvec, DwInv a b st ->
+  (o_version o = 2 \/ o_version o = 6 \/ o_version o = 7 \/ o_version o = 8) ->
+  (d < st_dim st)%nat -> length levelvec = st_dim st -> nth d levelvec 0 = l ->
+  stripe_dim o st d l
+  = stripe_with (fun i => option_map fst
+       (SpatiallyAdaptiveSingleDimensions2_get_subtraction_value (st_lmax st) (repeat (st_lmin st) (st_dim st)) [] (o_version o)
+          (Z.of_nat (st_dim st)) (lv_of (nth i (nth d (st_trees st) []) dflt)) (views (nth d (st_trees st) [])) (Z.of_nat i)
+          (max_coarsenings st) (Z.of_nat d) levelvec)) l (nth d (st_trees st) []).
+Proof. exact gen_stripe_dim_inv. Qed.
+Print Assumptions C06_gen_stripe_uses_generated_subtraction_value.
